@@ -171,6 +171,23 @@ CHECKS = {
              "iff reading s yields exactly that symbol and Keyword(s) iff reading ':'+s yields that keyword; for every "
              "delimiter/content pair String(s, brackets=d) must succeed iff #[d[s]d] reads back as s.",
         note="The reader side is the real reader, compared with HyReader's verdict on every text (C18 binding)."),
+    "C30": dict(
+        engine="models", level="model_checking", design="5.5, 6/C30",
+        technique="HyQuasi (render_quoted_form as a function on trees): QuoteIsIdentity checked by TLC per template; "
+                  "hy.eval of (quote m) compared node by node with every extra attribute",
+        text="For every generated template, and for models read from generated programs or assembled from constructors "
+             "(FString/FComponent with brackets, conversion, expression, is_tstring; special-looking symbols; empty "
+             "sequences), evaluating (quote m) must return a model of the same type, value and attributes at every node.",
+        note="The spec-level law is the identity; the binding is the node-by-node comparison on the real compiler."),
+    "C31": dict(
+        engine="models", level="model_checking", design="5.5, 6/C31",
+        technique="HyQuasi computes the reference quasiquote result in TLC for enumerated/generated templates and hole "
+                  "values; hy.eval of the quasiquote form is compared node by node",
+        text="Templates (exhaustive by size over expr/list/dict with ~x and ~@xs leaves; random with nested quasiquote "
+             "levels and all sequence kinds) and environments (models, ints, None, lists, tuples, strings, falsy values) "
+             "are given to TLC, which evaluates QQ(template, 0) -- level arithmetic, promotion, (or value []) splicing -- "
+             "and checks the literal-reproduction laws; the real result must equal the expected model tree.",
+        note="~x / ~@x directly under the quasiquote (no parent sequence) is outside the property and skipped."),
     "C32": dict(
         engine="mangle", level="model_checking", design="5.6, 6/C32",
         technique="TLC checks the mangling laws on all abstract class strings of HyMangle; the exported table is "
